@@ -198,6 +198,13 @@ class C01(Prop):
             for n in (n0, 4 * n0):
                 out.append(mk('time %s b%s' % (t, f(n).hex()), k='scale', shape=shape, n=n, timeout=60 if tier == 'quick' else 180))
         return out
+    @staticmethod
+    def superlinear(t1, t2, i):
+        """4x the input: more than 10x the time — or, for the typed decode, a ratio to the bare CBOR parse of the same bytes (measured in
+        the same process, so equally slowed by a loaded machine) that grows by more than 2.5x; either only counts above 3 s"""
+        if t2[i] <= 3000000: return False
+        if t2[i] > 10 * max(t1[i], 20000): return True
+        return i == 0 and t1[0] > 20000 and t2[0] * max(t1[1], 1) > 2.5 * t1[0] * max(t2[1], 1)
     def confirm_slow(self, o1, o2, i):
         """a timing suspicion is re-measured twice (a loaded machine can stall one run); it stands only if every measurement shows it"""
         import run as R_
@@ -208,8 +215,8 @@ class C01(Prop):
                 a = out[0] if (out and rc == 0 and len(out) == 1) else None
                 if a is None: ts.append(None); continue
                 if not a.startswith('ok '): return True
-                ts.append([int(x) for x in a.split(' ')[1:5]][i])
-            if ts[0] is not None and ts[1] is not None and not (ts[1] > 3000000 and ts[1] > 10 * max(ts[0], 20000)): return False
+                ts.append([int(x) for x in a.split(' ')[1:5]])
+            if ts[0] is not None and ts[1] is not None and not self.superlinear(ts[0], ts[1], i): return False
         return True
     def post(self, ops, impl):
         """time proportional to the input: each scaling shape is decoded at size n and 4n (own process each); the typed decode, the
@@ -231,9 +238,9 @@ class C01(Prop):
             if not (a1.startswith('ok ') and a2.startswith('ok ')): continue
             t1 = [int(x) for x in a1.split(' ')[1:5]]; t2 = [int(x) for x in a2.split(' ')[1:5]]
             for name, i in (('decode', 0), ('re-encode', 2), ('clone/compare/drop', 3)):
-                if t2[i] > 3000000 and t2[i] > 10 * max(t1[i], 20000) and self.confirm_slow(o1, o2, i):
+                if self.superlinear(t1, t2, i) and self.confirm_slow(o1, o2, i):
                     out.append(dict(op=o2['op'][:200] + '…', meta=dict(o2['meta'], gen='vlib/props_streams.py scale_shapes'), impl=a2, model=None,
-                                    why='%s of %s: %d µs at n=%d but %d µs at n=%d (more than 10x for 4x the input)' % (name, shape, t1[i], ns[0], t2[i], ns[1])))
+                                    why='%s of %s: %d µs at n=%d but %d µs at n=%d (bare CBOR parse of the same bytes: %d and %d µs): not proportional to the input' % (name, shape, t1[i], ns[0], t2[i], ns[1], t1[1], t2[1])))
         return out
     def impl_pred(self, o, impl):
         k = o['meta'].get('k')
